@@ -53,7 +53,8 @@ RULE = (
 ASSUMPTIONS = [
     "one equation per left-hand variable; no zero-shift reference to the own left-hand variable on the right-hand side",
     "a residual that is missing from the input databox (whole series or single cells) is read as 0 (irispie's documented default residual value in slatable_for_simulate); what the output holds in such a cell is only judged through the equation",
-    "exogenize() is called with the documented keywords only (transform=, when_data=); the undocumented 'flat' transform and the name_format=/shift= keywords are not generated",
+    "exogenize() is called with the documented keywords only (transform=, when_data=); the undocumented 'flat' transform and the name_format=/shift= keywords are not generated; "
+    "the alias spellings 'difflog', 'none' and 'level' that the transform lookup table holds next to 'diff_log' and None are taken to mean the same request",
     "an exogenized point without when_data always has a data value; when_data points have a value or a missing cell (or no series at all)",
     "simulate() options other than plan=, execution_order= and target_db= stay at their defaults (prepend_input, remove_initial, remove_terminal, shocks_from_data=True, parameters_from_data=False); the input databox may carry items named like parameters with other values, which the default parameters_from_data=False ignores",
     "cells after the end of the simulation span are not judged in the output (remove_terminal)",
@@ -494,6 +495,12 @@ def _build_plan(ir, case, m, span, start):
         kwargs = {}
         if entry["transform"] is not None:
             kwargs["transform"] = entry["transform"]
+        if entry.get("alias"):
+            # the other spellings the lookup table of transforms accepts for the same request
+            if entry["transform"] is None:
+                kwargs["transform"] = "none" if len(entry["names"]) % 2 else "level"
+            elif entry["transform"] == "diff_log":
+                kwargs["transform"] = "difflog"
         if entry["when_data"]:
             kwargs["when_data"] = True
         api("plan:exogenize", plan.exogenize, dates, names, **kwargs)
@@ -913,7 +920,8 @@ def _case(draw, shuffled=False):
             else:
                 periods = sorted(set(draw(st.lists(st.integers(0, T - 1), min_size=1, max_size=3))))
             plan.append({"names": names, "periods": periods, "as_span": draw(st.booleans()),
-                         "transform": draw(st.sampled_from(_EXO_TRANSFORMS)), "when_data": draw(st.booleans())})
+                         "transform": draw(st.sampled_from(_EXO_TRANSFORMS)), "when_data": draw(st.booleans()),
+                         "alias": draw(st.integers(0, 2)) == 0})
 
     # ---- equations -------------------------------------------------------------------
     kinds = {lhs[i]: ("pos" if trs[i] in POS_TRANSFORMS else "real") for i in range(n)}
